@@ -13,6 +13,18 @@ MUTATIONS = [
     ("C20", "lt-of-update-ignored", [(RD, "                actual_change = True\n                self.lt = set_lt\n", "                actual_change = True\n                self.lt = set_lt if is_initial else self.lt\n")]),
     ("C20", "expired-registration-stays", [(RD, "                await asyncio.sleep(delay)\n                callback()\n", "                await asyncio.sleep(delay)\n")]),
     ("C20", "update-base-not-following-source", [(RD, "            if not self.base_is_explicit and (is_initial or self.base != network_base):", "            if not self.base_is_explicit and is_initial:")]),
+    # -- lookup filters and paging, link resolution, simple registration, long lifetimes
+    ("C20", "revert-9c0403a-only-last-criterion-applied", [("@patch", "selftest.d/c20_revert_9c0403a.diff", 2)]),
+    ("C20", "wildcard-matches-anywhere", [(RD, "                    def matches(x, start=search_value[:-1]):\n                        return x.startswith(start)\n                else:\n\n                    def matches(x, search_value=search_value):\n                        return x == search_value\n\n                if search_key in (\"if\", \"rt\"):\n\n                    def matches(x, original_matches=matches):\n                        return any(original_matches(v) for v in x.split())\n\n                # evaluated eagerly",
+                                           "                    def matches(x, start=search_value[:-1]):\n                        return start in x\n                else:\n\n                    def matches(x, search_value=search_value):\n                        return x == search_value\n\n                if search_key in (\"if\", \"rt\"):\n\n                    def matches(x, original_matches=matches):\n                        return any(original_matches(v) for v in x.split())\n\n                # evaluated eagerly")]),
+    ("C20", "page-offset-off-by-one", [(RD, "            candidates = candidates[int(page) * int(count) :]", "            candidates = candidates[int(page) * int(count) + (1 if int(page) else 0) :]")]),
+    ("C20", "count-returns-one-more", [(RD, "            candidates = candidates[: int(count)]", "            candidates = candidates[: int(count) + 1]")]),
+    ("C20", "resource-lookup-ignores-endpoint-parameters", [(RD, "                    if _link_matches(c, search_key, matches)\n                    or (\n                        search_key in e.registration_parameters", "                    if _link_matches(c, search_key, matches)\n                    or (\n                        False and search_key in e.registration_parameters")]),
+    ("C20", "links-resolved-against-authority-only", [(RD, "                href = urljoin(self.base, link.href)\n", "                href = urljoin(urljoin(self.base, \"/\"), link.href)\n")]),
+    ("C20", "adv-simple-registration-before-fetch", [("@patch", "notes/adversary/C20_miss1.diff", 3)]),
+    ("C20", "adv-explicit-anchor-dropped", [("@patch", "notes/adversary/C20_miss2.diff", 3)]),
+    ("C20", "adv-lifetime-capped-at-one-day", [("@patch", "notes/adversary/C20_miss3.diff", 3)]),
+    ("C20", "endpoint-name-compared-case-insensitively", [(RD, "        key = (ep, d)\n", "        key = (ep.lower(), d)\n")]),
 ]
 
 CONTROLS = [
@@ -25,4 +37,5 @@ CONTROLS = [
     ]),
     ("C20", "other-location-names", [(RD, '            path = (str(i), "")\n', '            path = ("r%d" % (i + 6), "")\n')]),
     ("C20", "endpoint-lookup-lists-newest-first", [(RD, "        candidates = self.common_rd.get_endpoints()\n", "        candidates = reversed(list(self.common_rd.get_endpoints()))\n")]),
+    ("C20", "needless-anchor-kept-in-resource-lookup", [(RD, "            if dict(link.attr_pairs)[\"anchor\"] == urljoin(link.href, \"/\")\n", "            if False\n")]),
 ]
